@@ -88,6 +88,12 @@ func (x *deathWatch) handleTerminated(ctx *ReceiveContext) error {
 	actorTree := actorSys.tree()
 	if node, ok := actorTree.node(path.String()); ok {
 		pid := node.value()
+		if pid == nil {
+			// a concurrent deleteNode (e.g. the parent applying a Stop directive)
+			// emptied the node between the lookup and this read: the actor is
+			// already gone from the tree
+			return nil
+		}
 
 		if !pid.isStateSet(systemState) {
 			actorSys.decreaseActorsCounter()
